@@ -122,6 +122,40 @@ func c13Loads(sum *runSummary, r *rng, id int, tier string) int {
 			id++
 		}
 	}
+	// ExecContext of a text that loads another file (ensure_loaded/1, include/1, consult/1 as directives) whose
+	// own directive or initialization goal is still running when the context is cancelled: the error returned
+	// is the context's error (errors.Is), whatever the nesting of loads it comes through
+	nested := []string{
+		"lib_ready.\n:- between(1, 100000, X), X > 99999.\n",
+		"lib_ready.\n:- initialization((between(1, 100000, X), X > 99999)).\n",
+		"lib_ready.\n:- repeat, fail.\n",
+	}
+	for ni, lib := range nested {
+		for _, how := range []string{":- ensure_loaded(lib).", ":- include(lib).", ":- consult(lib).", ":- initialization(consult(lib))."} {
+			for _, n := range []int{5, 60, 400} {
+				p := prolog.New(nil, nil)
+				_ = p.Exec(c13Library)
+				p.FS = fstest.MapFS{"lib.pl": &fstest.MapFile{Data: []byte(lib)}}
+				text := "before.\n" + how + "\nafter.\n"
+				desc := map[string]interface{}{"text": fmt.Sprintf("ExecContext(%q) with lib.pl = nested file %d, cancelled from poll %d on", text, ni, n), "file": lib, "cancel_at_poll": n}
+				sum.Cases[fmt.Sprint(id)] = desc
+				ctx := newStepCtx(context.Background(), n)
+				done := make(chan error, 1)
+				go func() { done <- p.ExecContext(ctx, text) }()
+				sum.Evaluations++
+				sum.count("cancel:nested-load")
+				select {
+				case err := <-done:
+					if ctx.Err() != nil && !errors.Is(err, context.Canceled) {
+						sum.Failures = append(sum.Failures, failure{ID: id, Class: "cancel:nested-load-not-the-context-error", Input: desc, Observed: fmt.Sprint(err), Expected: "the context's error (errors.Is(err, context.Canceled))"})
+					}
+				case <-time.After(3 * time.Second):
+					sum.Failures = append(sum.Failures, failure{ID: id, Class: "cancel:nested-load-does-not-return", Input: desc, Observed: "no return within 3 s", Expected: "the context's error"})
+				}
+				id++
+			}
+		}
+	}
 	// a term_expansion/2 that never returns: loading any text, and expand_term/2, must still be cancellable
 	for _, n := range []int{5, 50, 500} {
 		for mode, run := range map[string]string{"load": "", "expand_term": "expand_term(foo, X)."} {
